@@ -26,6 +26,7 @@
 //!     * ✨有相应的「结果索引」类型
 
 use super::format::*;
+use crate::conversion::string::common::char_slice_starts_with;
 use crate::{
     api::{FloatPrecision, FromParse, IntPrecision, NarseseOptions, UIntPrecision},
     enum_narsese::*,
@@ -1262,7 +1263,7 @@ impl<'a> ParseState<'a, &'a str> {
             .copulas()
             .into_iter()
             // 是否有任意一个是「环境切片」的开头
-            .any(|copula| env_slice.starts_with_str(copula))
+            .any(|copula| char_slice_starts_with(env_slice, copula))
     }
 
     /// 消耗&置入/词项/原子
